@@ -297,12 +297,21 @@ def case_history(case):
     m = build(cls, dim, grid[0], 1.0, 1.0, 0.0, None)
     hs = np.array([0.0, 0.05, 0.3, 0.9, 1.0, 1.7, 4.0])
     state = {"opts": dict(grid[0]), "var": 1.0, "ls": 1.0, "nug": 0.0, "rs": None}
-    steps = [("opts", o) for o in grid[1:]] + [("ls", 2.5), ("rs", 2.0), ("var", 0.6), ("nug", 0.2), ("opts", grid[0]), ("ls", 0.4)] + [("opts", o) for o in reversed(grid)]
+    others = [d for d in cf.valid_dims(cls) if d != dim]
+    dsteps = [[("dim", d)] for d in others[:2]] + [[], []]
+    steps = [("opts", o) for o in grid[1:]] + dsteps[0] + [("ls", 2.5), ("rs", 2.0), ("var", 0.6), ("nug", 0.2), ("opts", grid[0])] + ([("dim", dim)] if others else []) + [("ls", 0.4)] + dsteps[1] + [("opts", o) for o in reversed(grid)]
+    state["dim"] = dim
+    with_int = cls not in ("JBessel", "TPLStable")
     for kind, val in steps:
         m.variogram(hs)  # evaluate before the change
         m.cor(hs)
+        if with_int:
+            m.integral_scale, m.integral_scale_vec
         try:
-            if kind == "opts":
+            if kind == "dim":
+                m.dim = val
+                state["dim"] = val
+            elif kind == "opts":
                 for k, v in val.items():
                     setattr(m, k, v)
                 state["opts"] = dict(val)
@@ -322,6 +331,7 @@ def case_history(case):
             continue
         s_ = cf.DEFAULT_RESCALE[cls] if state["rs"] is None else state["rs"]
         lags = hs * state["ls"] / s_
+        dim = state["dim"]
         ref = np.array([float(cf.ref_correlation(cls, state["opts"], dim, x, state["ls"], s_)) for x in lags])
         var = float(m.var)
         r.close("after in-place changes: correlation == documented closed form of the current parameters", m.correlation(lags), ref, rtol=1e-8, atol=1e-9, cls=cls, dim=dim, step=kind)
@@ -329,7 +339,9 @@ def case_history(case):
         fresh = build(cls, dim, state["opts"], 1.0, state["ls"], state["nug"], state["rs"])
         fresh.var_raw = m.var_raw
         r.close("after in-place changes: identical to a freshly constructed model", m.variogram(lags), fresh.variogram(lags), rtol=1e-12, atol=1e-14, cls=cls, dim=dim, step=kind)
-    return r.done(outcome=[cls, dim])
+        if with_int:
+            r.close("after in-place changes: integral scale of a freshly constructed model", m.integral_scale, fresh.integral_scale, rtol=1e-10, cls=cls, dim=dim, step=kind)
+    return r.done(outcome=[cls, case["dim"]])
 
 
 GROUPS = {"history": case_history, "model": case_model, "integral": case_integral, "variants": case_variants, "yadrenko": case_yadrenko, "effdim": case_effdim, "user": case_user}
